@@ -420,6 +420,12 @@ def run(scn):
         return run_c(scn)
     t = cs.run_world(scn)
     viol = judge_a(t)
+    if t.second is not None:
+        for v in judge_a(t.second):
+            v['key'] += '|second-call'
+            v['facts']['call'] = 2
+            v['message'] = 'second compile() on the same compiler: ' + v['message']
+            viol.append(v)
     return cs.outcome(t, viol, nontrivial=bool(scn.get('searchers')) and (len(scn.get('modules', {})) >= 1), extra_sig=['a', [s.get('flavour') for s in scn.get('searchers', ())]])
 
 
